@@ -31,4 +31,24 @@ def SSE1Cfg.wire (c : SSE1Cfg) : WireFmt :=
 def SSE2Cfg.wire (c : SSE2Cfg) : WireFmt := { key := [c.k.toNat, c.k.toNat], token := none }
 def DP17Cfg.wire (c : DP17Cfg) : WireFmt := { key := List.replicate 3 c.lambda.toNat, token := none }
 
+
+/-! the configuration fields the wire formats read, by the names the source uses (`config.param_*`) — the valuation at which
+    the layouts extracted from `structures.py` (`Generated/WireLayout.lean`) are evaluated -/
+def ChainCfg.field (c : ChainCfg) : String → Int
+  | "param_lambda" => c.lambda | _ => 0
+def PiPtrCfg.field (c : PiPtrCfg) : String → Int
+  | "param_lambda" => c.lambda | _ => 0
+def Pi2LevCfg.field (c : Pi2LevCfg) : String → Int
+  | "param_lambda" => c.lambda | _ => 0
+def CT14Cfg.field (c : CT14Cfg) : String → Int
+  | "param_k" => c.k | "param_k_prime" => c.kPrime | "param_l" => c.l | _ => 0
+def ANSSCfg.field (c : ANSSCfg) : String → Int
+  | "param_lambda" => c.lambda | "param_k" => c.k | "param_k_prime" => c.kPrime | "param_l" => c.l | "param_l_prime" => c.lPrime | _ => 0
+def SSE1Cfg.field (c : SSE1Cfg) : String → Int
+  | "param_k" => c.k | "param_l" => c.l | "param_log2_s_bytes" => (c.log2sBytes : Int) | _ => 0
+def SSE2Cfg.field (c : SSE2Cfg) : String → Int
+  | "param_k" => c.k | _ => 0
+def DP17Cfg.field (c : DP17Cfg) : String → Int
+  | "param_lambda" => c.lambda | _ => 0
+
 end SSEPy.Sch
